@@ -44,7 +44,7 @@ Known(s, j)  == j \in JobIds(s)
 Run(j, t) == st.runs[j][t]
 OkFor(j, d) == Run(j, d).outcome = "ok" \/ (Run(j, d).outcome = "fail" /\ V(j).tasks[d].allow)
 FailedHard(j, t) == Run(j, t).outcome = "fail" /\ ~V(j).tasks[t].allow
-UserCause(j) == st.ack[j].n > 0 \/ st.shut # "no"
+UserCause(j) == st.ack[j].n > 0 \/ st.ack[j].req > 0 \/ st.shut # "no"
 
 BecameStarted(j) == Quiet /\ st.jobs[j].started /\ ~(Known(pre, j) /\ pre.jobs[j].started)
 
@@ -61,10 +61,9 @@ C01_LimitAtStart ==
 
 C01_RunInsideSpan ==
   \A j \in J : \A t \in TaskIds(j) :
-     \* (a job purged by retention - see C12 - is no longer reported at all: "gone")
-     /\ Run(j, t).begun > 0 => (Run(j, t).execAtBegin \/ Run(j, t).goneAtBegin)
-     /\ (Run(j, t).begun > 0 /\ ~Run(j, t).open) => (Run(j, t).execAtEnd \/ Run(j, t).goneAtEnd)
-     /\ (Quiet /\ Run(j, t).open /\ st.jobs[j].listed) => Executing(st, j)
+     /\ Run(j, t).begun > 0 => Run(j, t).execAtBegin
+     /\ (Run(j, t).begun > 0 /\ ~Run(j, t).open) => Run(j, t).execAtEnd
+     /\ (Quiet /\ Run(j, t).open) => Executing(st, j)
 
 OpenJobs(p) == {j \in Of(st, p) : \E t \in TaskIds(j) : Run(j, t).open}
 C01_RunLimit ==
@@ -343,7 +342,8 @@ C12_PeriodBound ==
      \A j \in Of(st, p) : (st.jobs[j].listed /\ Finished(st, j)) => st.jobs[j].age <= Cur(p).retPeriod
 
 C12_UndefinedPurged ==
-  IsOp("save") => \A j \in J : ~Defined(st.jobs[j].p) => ~st.jobs[j].listed
+  \* (a job whose tasks are still executing is purged by the first save after it finished)
+  IsOp("save") => \A j \in J : ~Defined(st.jobs[j].p) => (~st.jobs[j].listed \/ Executing(st, j))
 
 C12_ThreeViewsAgree ==
   IsOp("save") => /\ st.store.loaded /\ st.store.extra = 0 /\ st.xlogs = 0
